@@ -47,6 +47,13 @@ def gen_cases(rng, tier):
     for _ in range(N // 3):
         d = rng.choice(['uint8', 'int7', 'hex4', 'bin3', 'float16', 'float32', 'bool', 'bytes2', 'uintle16', '>h', 'oct3'])
         yield {'op': 'array_repr', 'dtype': d, 'n': rng.randrange(0, 6), 'trail': rand_bits(rng, rng.choice([0, 0, 1, 3])), 'seed': rng.randrange(1 << 30)}
+    # Arrays of float formats holding ARBITRARY finite bit patterns (not only short decimals): eval(repr(a)) must give the same data
+    for _ in range(60 if tier == 'quick' else 1500):
+        d = rng.choice(['float16', 'float16', 'floatle16', 'float32', 'floatle32', 'float64', 'bfloat', 'bfloatle', 'e4m3mxfp', 'e5m2mxfp', 'p4binary', 'p3binary', 'e3m2mxfp', 'e2m1mxfp', 'mxint', 'e8m0mxfp'])
+        yield {'op': 'array_repr_raw', 'dtype': d, 'n': rng.randrange(1, 8), 'seed': rng.randrange(1 << 30)}
+    # a history of pp() calls with options.no_color switched on, off and on again (each output judged under the setting in force)
+    for _ in range(6 if tier == 'quick' else 60):
+        yield {'op': 'color_history', 'flags': [rng.random() < 0.5 for _ in range(rng.randrange(3, 8))], 'first': rng.random() < 0.5, 'what': rng.choice(['bits', 'array', 'both'])}
     yield {'op': 'maxchars'}
     # the layout arithmetic of _pp against PrintPP.v: bits on the first (full) line and its width, for every kind of format pair
     BPC = {'bin': 1, 'oct': 3, 'hex': 4, 'bytes': 8}
@@ -150,6 +157,40 @@ def run_impl(c):
             r = repr(a)
             e = eval(r, {'Array': Array, 'BitArray': BitArray, 'nan': float('nan'), 'inf': float('inf')})
             return [r, a.equals(e), a.data.bin == e.data.bin]
+        return attempt(f)
+
+    if op == 'array_repr_raw':
+        import random, math
+        rng = random.Random(c['seed'])
+        def f():
+            a = Array(c['dtype'])
+            w = a.itemsize
+            items = 0
+            while items < c['n']:
+                cand = Array(c['dtype'], Bits(uint=rng.getrandbits(w), length=w).tobytes()[: (w + 7) // 8]) if w % 8 == 0 else None
+                if cand is None:
+                    cand = Array(c['dtype']); cand.data += Bits(uint=rng.getrandbits(w), length=w)
+                v = cand[0]
+                if isinstance(v, float) and (math.isnan(v) or math.isinf(v)): continue
+                a.data += cand.data; items += 1
+            r = repr(a)
+            e = eval(r, {'Array': Array, 'BitArray': BitArray, 'nan': float('nan'), 'inf': float('inf')})
+            return [r, a.equals(e), a.data.bin == e.data.bin]
+        return attempt(f)
+    if op == 'color_history':
+        def f():
+            out = []
+            flags = [c['first']] + list(c['flags'])
+            try:
+                for fl in flags:
+                    bitstring.options.no_color = fl
+                    buf = io.StringIO()
+                    if c['what'] in ('bits', 'both'): Bits('0x0123456789abcdef').pp('hex, bin', stream=buf)
+                    if c['what'] in ('array', 'both'): Array('uint8', [1, 2, 3]).pp(stream=buf)
+                    out.append([fl, '\x1b' in buf.getvalue()])
+            finally:
+                bitstring.options.no_color = False
+            return out
         return attempt(f)
 
 ESC = re.compile(r'\x1b\[[0-9;]*m')
@@ -278,6 +319,14 @@ def oracle(c, obs):
         if o.get('skipped'): return None
         if o['cls'] != c['cls'] or not o['same'] or o['pos'][0] != o['pos'][1]:
             return f"eval(repr(s)) is not s for {c['cls']} created from a file ({c['how']}) after {c['edit']}: {o}"
+        return None
+    if op == 'array_repr_raw':
+        if obs[0] != 'ok': return f"Array repr {c} raised {obs}"
+        return None if obs[1][1] and obs[1][2] else f"eval(repr(Array)) differs from the Array for finite {c['dtype']} items: {obs[1][0][:160]}"
+    if op == 'color_history':
+        if obs[0] != 'ok': return f"color history {c} raised {obs}"
+        for k, (fl, esc) in enumerate(obs[1]):
+            if fl and esc: return f"pp() call #{k} of the history {[x[0] for x in obs[1]]} (options.no_color values) printed terminal escape sequences although options.no_color was set"
         return None
     if op == 'array_repr':
         if obs[0] != 'ok': return f"Array repr {c} raised {obs}"
